@@ -61,14 +61,14 @@ func isErrorType(t types.Type) bool {
 // confirm a panic, never a postcondition.
 func replayable(vc *VC, kind string) bool {
 	fn := vc.fnSSA
-	if fn == nil || fn.Signature.Recv() != nil || fn.Pkg == nil || len(fn.TypeArgs()) > 0 || fn.Parent() != nil {
+	if fn == nil || fn.Pkg == nil || len(fn.TypeArgs()) > 0 || fn.Parent() != nil {
 		return false
 	}
 	if len(fn.Params) != len(vc.paramVals) {
 		return false
 	}
 	for _, p := range fn.Params {
-		if scalarKind(p.Type()) == "" && !(kind == "nopanic" && ownStructPtr(fn.Pkg.Pkg, p.Type())) {
+		if scalarKind(p.Type()) == "" && !scalarStruct(fn.Pkg.Pkg, p.Type()) && !(kind == "nopanic" && ownStructPtr(fn.Pkg.Pkg, p.Type())) {
 			return false
 		}
 	}
@@ -78,6 +78,25 @@ func replayable(vc *VC, kind string) bool {
 	res := fn.Signature.Results()
 	for i := 0; i < res.Len(); i++ {
 		if scalarKind(res.At(i).Type()) == "" && !isErrorType(res.At(i).Type()) {
+			return false
+		}
+	}
+	return true
+}
+
+// scalarStruct: a named struct of the function's package all of whose fields are scalars; such a
+// parameter or value receiver is rebuilt from the model field by field.
+func scalarStruct(pkg *types.Package, t types.Type) bool {
+	n, ok := t.(*types.Named)
+	if !ok || n.Obj().Pkg() != pkg {
+		return false
+	}
+	st, ok := n.Underlying().(*types.Struct)
+	if !ok || st.NumFields() == 0 {
+		return false
+	}
+	for i := 0; i < st.NumFields(); i++ {
+		if scalarKind(st.Field(i).Type()) == "" {
 			return false
 		}
 	}
@@ -189,20 +208,39 @@ func replayScalar(en *Engine, opts checkOpts, r *obResult) (bool, bool, map[stri
 		queryFile = cand
 		rec["candidate_search"] = "the failing query gave no model; inputs come from its quantifier-free part and are validated only by the replay"
 	}
-	// 1. the inputs of the model
-	var terms []string
+	// 1. the inputs of the model: every parameter is a scalar, a struct of scalars (one leaf per
+	// field) or, for no-panic obligations, a pointer (nil or zero value)
+	type leaf struct {
+		param int
+		field string // "" for a scalar parameter
+		t     types.Type
+		term  string
+	}
+	var leaves []leaf
 	for i, p := range fn.Params {
-		t := vc.paramVals[i].E
-		switch scalarKind(p.Type()) {
+		pt := vc.paramVals[i].E
+		if scalarStruct(fn.Pkg.Pkg, p.Type()) {
+			si := en.u.structInfo(p.Type())
+			st := p.Type().Underlying().(*types.Struct)
+			for k := 0; k < st.NumFields(); k++ {
+				leaves = append(leaves, leaf{i, st.Field(k).Name(), st.Field(k).Type(), app(en.u.selName(si, st.Field(k).Name()), pt)})
+			}
+			continue
+		}
+		leaves = append(leaves, leaf{i, "", p.Type(), pt})
+	}
+	var terms []string
+	for _, lf := range leaves {
+		switch scalarKind(lf.t) {
 		case "int", "bool":
-			terms = append(terms, t)
+			terms = append(terms, lf.term)
 		case "string":
-			terms = append(terms, app("slen", t))
+			terms = append(terms, app("slen", lf.term))
 			for k := 0; k < replayMaxStr; k++ {
-				terms = append(terms, app("sat", t, num(int64(k))))
+				terms = append(terms, app("sat", lf.term, num(int64(k))))
 			}
 		default:
-			terms = append(terms, pref(t))
+			terms = append(terms, pref(lf.term))
 		}
 	}
 	vals, why := modelValues(queryFile, terms, 20)
@@ -210,28 +248,29 @@ func replayScalar(en *Engine, opts checkOpts, r *obResult) (bool, bool, map[stri
 		rec["replay_log"] = "model extraction failed: " + why
 		return true, false, rec
 	}
-	var args []scalarArg
 	var fix []string // SMT assertions that pin the inputs
-	for i, p := range fn.Params {
-		t := vc.paramVals[i].E
-		a := scalarArg{name: p.Name(), t: p.Type(), term: t}
-		switch scalarKind(p.Type()) {
+	leafLit := map[int][]string{}
+	leafShow := map[int][]string{}
+	for _, lf := range leaves {
+		t := lf.term
+		lit, show := "", ""
+		tn := types.TypeString(lf.t, types.RelativeTo(fn.Pkg.Pkg))
+		switch scalarKind(lf.t) {
 		case "int":
 			n, ok := smtInt(vals[t])
 			if !ok {
-				rec["replay_log"] = "non-numeric model value for " + p.Name()
+				rec["replay_log"] = "non-numeric model value for " + fn.Params[lf.param].Name()
 				return true, false, rec
 			}
-			a.lit = fmt.Sprintf("%s(%d)", types.TypeString(p.Type(), types.RelativeTo(fn.Pkg.Pkg)), n)
-			a.show = fmt.Sprint(n)
+			lit, show = fmt.Sprintf("%s(%d)", tn, n), fmt.Sprint(n)
 			fix = append(fix, eq(t, num(n)))
 		case "bool":
-			a.lit, a.show = vals[t], vals[t]
+			lit, show = vals[t], vals[t]
 			fix = append(fix, eq(t, vals[t]))
 		case "string":
 			n, ok := smtInt(vals[app("slen", t)])
 			if !ok || n < 0 || n > replayMaxStr {
-				rec["replay_log"] = fmt.Sprintf("model string %s has length %s: outside the replay bound %d", p.Name(), vals[app("slen", t)], replayMaxStr)
+				rec["replay_log"] = fmt.Sprintf("model string %s has length %s: outside the replay bound %d", fn.Params[lf.param].Name(), vals[app("slen", t)], replayMaxStr)
 				return true, false, rec
 			}
 			bs := make([]byte, n)
@@ -241,16 +280,31 @@ func replayScalar(en *Engine, opts checkOpts, r *obResult) (bool, bool, map[stri
 				bs[k] = byte(c)
 				fix = append(fix, eq(app("sat", t, num(k)), num(int64(bs[k]))))
 			}
-			a.lit = fmt.Sprintf("%s(%s)", types.TypeString(p.Type(), types.RelativeTo(fn.Pkg.Pkg)), goStringLit(bs))
-			a.show = strconv.Quote(string(bs))
+			lit, show = fmt.Sprintf("%s(%s)", tn, goStringLit(bs)), strconv.Quote(string(bs))
 		default:
 			n, _ := smtInt(vals[pref(t)])
 			if n == 0 {
-				a.lit, a.show = "nil", "nil"
+				lit, show = "nil", "nil"
 			} else {
-				tn := types.TypeString(p.Type().(*types.Pointer).Elem(), types.RelativeTo(fn.Pkg.Pkg))
-				a.lit, a.show = "&"+tn+"{}", "&"+tn+"{} (zero value)"
+				en := types.TypeString(lf.t.(*types.Pointer).Elem(), types.RelativeTo(fn.Pkg.Pkg))
+				lit, show = "&"+en+"{}", "&"+en+"{} (zero value)"
 			}
+		}
+		if lf.field != "" {
+			lit, show = lf.field+": "+lit, lf.field+": "+show
+		}
+		leafLit[lf.param] = append(leafLit[lf.param], lit)
+		leafShow[lf.param] = append(leafShow[lf.param], show)
+	}
+	var args []scalarArg
+	for i, p := range fn.Params {
+		a := scalarArg{name: p.Name(), t: p.Type()}
+		if scalarStruct(fn.Pkg.Pkg, p.Type()) {
+			tn := types.TypeString(p.Type(), types.RelativeTo(fn.Pkg.Pkg))
+			a.lit = tn + "{" + strings.Join(leafLit[i], ", ") + "}"
+			a.show = tn + "{" + strings.Join(leafShow[i], ", ") + "}"
+		} else {
+			a.lit, a.show = leafLit[i][0], leafShow[i][0]
 		}
 		args = append(args, a)
 	}
@@ -281,6 +335,9 @@ func replayScalar(en *Engine, opts checkOpts, r *obResult) (bool, bool, map[stri
 		}
 	}
 	call := fmt.Sprintf("%s(%s)", fn.Name(), strings.Join(lits, ", "))
+	if fn.Signature.Recv() != nil && len(lits) > 0 {
+		call = fmt.Sprintf("(%s).%s(%s)", lits[0], fn.Name(), strings.Join(lits[1:], ", "))
+	}
 	if r.O.Kind == "nopanic" {
 		prints = nil
 		for i := range lhs {
@@ -464,7 +521,48 @@ func TestGovcReplay(t *testing.T) {
 	cr := solve(cf, 20, false)
 	rec["confirm_query"] = cf
 	rec["confirm_status"] = cr.Status
-	return true, cr.Status == "sat", rec
+	if cr.Status != "sat" {
+		return true, false, rec
+	}
+	// The violation is confirmed only if the real input/output pair makes the clause false in
+	// EVERY model: with the same pins the clause itself must be unsatisfiable. (When the clause
+	// mentions uninterpreted specification functions the solver can otherwise choose them so
+	// that a correct output "violates" it.)
+	k := strings.LastIndex(body[:j], "(assert (not ")
+	if k < 0 {
+		return true, false, rec
+	}
+	line := body[k:j]
+	if nl := strings.Index(line, "\n"); nl >= 0 {
+		line = line[:nl]
+	}
+	goal := strings.TrimSuffix(strings.TrimPrefix(line, "(assert (not "), "))")
+	var b2 strings.Builder
+	b2.WriteString(body[:k])
+	// not(R => G) is R and not G: the complementary question is R and G
+	for strings.HasPrefix(goal, "(=> ") {
+		parts := splitTop(goal[4 : len(goal)-1])
+		if len(parts) != 2 {
+			break
+		}
+		b2.WriteString("(assert " + parts[0] + ")\n")
+		goal = parts[1]
+	}
+	b2.WriteString("(assert " + goal + ")\n")
+	b2.WriteString(body[k+len(line):j])
+	for _, a := range fix {
+		b2.WriteString("(assert " + a + ")\n")
+	}
+	b2.WriteString("(check-sat)\n")
+	cf2 := strings.TrimSuffix(r.File, ".smt2") + ".replay2.smt2"
+	os.WriteFile(cf2, []byte(b2.String()), 0o644)
+	cr2 := solve(cf2, 20, false)
+	rec["clause_can_hold_status"] = cr2.Status
+	if cr2.Status != "unsat" {
+		rec["note"] = "the real code was run on the model's input, but the clause is not determined by that input/output pair alone (it mentions specification functions the solver may interpret freely): not counted as a replayed counterexample"
+		return true, false, rec
+	}
+	return true, true, rec
 }
 
 // candidateQuery writes the query without its quantified assertions, with the string
@@ -554,8 +652,13 @@ func enumeratePanic(en *Engine, fn *ssa.Function, dir string) ([][]string, strin
 		}
 		args = append(args, v)
 	}
-	if nstr > 2 || len(fn.Params) > 5 || len(fn.Params) == 0 {
+	if nstr > 2 || len(fn.Params) > 5 || len(fn.Params) == 0 || fn.Signature.Recv() != nil {
 		return nil, ""
+	}
+	for _, p := range fn.Params {
+		if scalarStruct(fn.Pkg.Pkg, p.Type()) {
+			return nil, ""
+		}
 	}
 	maxLen := 4
 	if nstr == 2 {
